@@ -14,6 +14,7 @@ import (
 	"errors"
 	"io"
 	"net"
+	"os"
 	"sync"
 	"time"
 
@@ -44,7 +45,21 @@ func (a addr) String() string  { return string(a) }
 type Conn struct {
 	r, w *half
 	name string
+	// deadlines as net.Conn defines them: absolute, for pending and future calls, zero = none
+	dmu      sync.Mutex
+	rdl, wdl time.Time
 }
+
+func (c *Conn) deadline(write bool) time.Time {
+	c.dmu.Lock()
+	defer c.dmu.Unlock()
+	if write {
+		return c.wdl
+	}
+	return c.rdl
+}
+
+func expired(d time.Time) bool { return !d.IsZero() && !time.Now().Before(d) }
 
 func Pipe(name string) (*Conn, *Conn) {
 	a, b := newHalf(), newHalf()
@@ -55,11 +70,14 @@ func (c *Conn) Read(p []byte) (int, error) {
 	h := c.r
 	h.mu.Lock()
 	defer h.mu.Unlock()
-	for (len(h.buf) == 0 || h.Stalled) && !h.closed {
+	for (len(h.buf) == 0 || h.Stalled) && !h.closed && !expired(c.deadline(false)) {
 		h.cond.Wait()
 	}
 	if h.closed && (len(h.buf) == 0 || h.Stalled) {
 		return 0, io.EOF
+	}
+	if expired(c.deadline(false)) {
+		return 0, os.ErrDeadlineExceeded
 	}
 	n := copy(p, h.buf)
 	if h.CloseAfter > 0 && h.readTotal+n >= h.CloseAfter {
@@ -84,11 +102,14 @@ func (c *Conn) Write(p []byte) (int, error) {
 	h := c.w
 	h.mu.Lock()
 	defer h.mu.Unlock()
-	for h.Cap > 0 && len(h.buf) >= h.Cap && !h.closed {
+	for h.Cap > 0 && len(h.buf) >= h.Cap && !h.closed && !expired(c.deadline(true)) {
 		h.cond.Wait()
 	}
 	if h.closed {
 		return 0, io.ErrClosedPipe
+	}
+	if expired(c.deadline(true)) {
+		return 0, os.ErrDeadlineExceeded
 	}
 	h.buf = append(h.buf, p...)
 	h.cond.Broadcast()
@@ -117,11 +138,34 @@ func (c *Conn) SetStalled(v bool) {
 	c.r.mu.Unlock()
 }
 
-func (c *Conn) LocalAddr() net.Addr                { return addr(c.name) }
-func (c *Conn) RemoteAddr() net.Addr               { return addr(c.name + "-peer") }
-func (c *Conn) SetDeadline(t time.Time) error      { return nil }
-func (c *Conn) SetReadDeadline(t time.Time) error  { return nil }
-func (c *Conn) SetWriteDeadline(t time.Time) error { return nil }
+func (c *Conn) LocalAddr() net.Addr  { return addr(c.name) }
+func (c *Conn) RemoteAddr() net.Addr { return addr(c.name + "-peer") }
+func (c *Conn) SetDeadline(t time.Time) error {
+	c.SetReadDeadline(t)
+	return c.SetWriteDeadline(t)
+}
+
+func (c *Conn) setDeadline(dl *time.Time, h *half, t time.Time) error {
+	c.dmu.Lock()
+	*dl = t
+	c.dmu.Unlock()
+	wake := func() {
+		h.mu.Lock()
+		h.cond.Broadcast()
+		h.mu.Unlock()
+	}
+	if !t.IsZero() {
+		if d := time.Until(t); d > 0 {
+			time.AfterFunc(d, wake) // a call that is blocked when the deadline passes is woken up
+			return nil
+		}
+	}
+	wake()
+	return nil
+}
+
+func (c *Conn) SetReadDeadline(t time.Time) error  { return c.setDeadline(&c.rdl, c.r, t) }
+func (c *Conn) SetWriteDeadline(t time.Time) error { return c.setDeadline(&c.wdl, c.w, t) }
 
 // Listener hands out tls.Server connections over in-memory streams.
 type Listener struct {
